@@ -1114,7 +1114,12 @@ impl<'a> GeneratorState<'a> {
                 let v = self.compiler_state.get_variable(name);
                 match v.var_type {
                     VariableType::CharPtr => {
-                        self.asm(STA, &ExprType::Absolute(name.clone(), true, 0), pos, false)?;
+                        // A strobe is a hardware access: it must never be optimized out
+                        self.protected = true;
+                        let ret =
+                            self.asm(STA, &ExprType::Absolute(name.clone(), true, 0), pos, false);
+                        self.protected = false;
+                        ret?;
                         Ok(())
                     }
                     _ => Err(self
